@@ -1868,6 +1868,13 @@ class Frame(object):
                     o = kwargs.get('order', args[2] if len(args) > 2 else None)
                     return Bytes([('SYM', 'int_to_bytes(%s, %s, %s)' % (render(args[0]), render(w), render(o)))])
                 return Bytes([('INT', render(w), render(args[0]))])
+            if meth == 'to_bytes' and not isinstance(recv, (Bytes, ListV, Obj, Hasher)):
+                # <int>.to_bytes(n, 'big') is the n-octet big-endian integer, the same term int_to_bytes(x, n) denotes
+                ln = args[0] if args else kwargs.get('length')
+                bo = args[1] if len(args) > 1 else kwargs.get('byteorder', Const('big') if ln is not None else None)
+                if ln is not None and isinstance(bo, Const) and bo.value == 'big' and len(args) <= 2 and set(kwargs) <= {'length', 'byteorder'}:
+                    record(ftext)
+                    return Bytes([('INT', render(ln), render(recv))])
             if isinstance(recv, Bytes) or (isinstance(func.value, ast.Name) and isinstance(st.env.get(func.value.id), Bytes)):
                 tgt = recv
                 if meth == 'append' and len(args) == 1:
